@@ -877,4 +877,338 @@ theorem ball_posed_eq_default2 (r : K) (m : Iso2 K) (dir : V2 K) (hq : m.re * m.
   · linear_combination (-(dir.x / @Num.sqrt K (fieldNum K sq) (@V2.normSq K (fieldNum K sq) dir) * r)) * hq
   · linear_combination (-(dir.y / @Num.sqrt K (fieldNum K sq) (@V2.normSq K (fieldNum K sq) dir) * r)) * hq
 
+/-! ## feature maps -/
+
+/-- `iamax` returns an index of a component of largest absolute value -/
+private theorem iamax3_spec (v : V3 K) :
+    letI := fieldNum K sq
+    iamax3 v < 3 ∧ |v.x| ≤ |v.get (iamax3 v)| ∧ |v.y| ≤ |v.get (iamax3 v)| ∧ |v.z| ≤ |v.get (iamax3 v)| := by
+  simp only [iamax3, fieldNum_nabs, V3.get]
+  split_ifs <;> simp_all <;> (try constructor) <;> linarith
+
+/-- `copysign 1 d` is `-1` for `d < 0` and `1` otherwise -/
+private theorem copysign_one (d : K) :
+    letI := fieldNum K sq
+    copysign 1 d = if d < 0 then -1 else 1 := by
+  rw [copysign_field]; simp
+
+/-- **C10 (cuboid `support_face`, 3-D)**: for every cuboid with non-negative half-extents and every direction,
+with `i = iamax(dir)` the axis chosen by the code:
+(1) `|dir_j| ≤ |dir_i|` for every axis `j` (the face normal is the dominant axis of `dir`);
+(2) every returned vertex belongs to the cuboid and lies on the supporting plane of that face:
+    its `i`-th coordinate is `+he_i` if `dir_i ≥ 0` and `-he_i` if `dir_i < 0`;
+(3) the face contains the support point: `Cuboid::local_support_point(dir)` is one of the four vertices —
+    so the returned face is a supporting face of the cuboid for `dir`. -/
+theorem cuboid_face_vertices3 (he dir : V3 K) (hx : 0 ≤ he.x) (hy : 0 ≤ he.y) (hz : 0 ≤ he.z) :
+    letI := fieldNum K sq
+    (|dir.x| ≤ |dir.get (iamax3 dir)| ∧ |dir.y| ≤ |dir.get (iamax3 dir)| ∧ |dir.z| ≤ |dir.get (iamax3 dir)|) ∧
+    (∀ v ∈ (cuboidSupportFace3 he dir).verts, (Cuboid3.mk he).Mem v ∧
+        v.get (iamax3 dir) = if dir.get (iamax3 dir) < 0 then -(he.get (iamax3 dir)) else he.get (iamax3 dir)) ∧
+    cuboidLocal3 he dir ∈ (cuboidSupportFace3 he dir).verts := by
+  obtain ⟨hi, h1, h2, h3⟩ := iamax3_spec sq dir
+  refine ⟨⟨h1, h2, h3⟩, ?_⟩
+  unfold cuboidSupportFace3 cuboidLocal3
+  simp only [copysign_field, abs_one, abs_of_nonneg hx, abs_of_nonneg hy, abs_of_nonneg hz]
+  generalize @iamax3 K (fieldNum K sq) dir = i at hi ⊢
+  have hc : i = 0 ∨ i = 1 ∨ i = 2 := by omega
+  rcases hc with rfl | rfl | rfl
+  · simp only [V3.get, if_true, Cuboid3.Mem, List.mem_cons, List.not_mem_nil, or_false]
+    refine ⟨?_, ?_⟩
+    · rintro v (rfl | rfl | rfl | rfl) <;> split_ifs <;>
+        (refine ⟨⟨⟨?_, ?_⟩, ⟨?_, ?_⟩, ⟨?_, ?_⟩⟩, ?_⟩) <;> simp only [mul_neg, mul_one] <;> linarith
+    · split_ifs <;> simp
+  · simp only [V3.get, one_ne_zero, if_false, if_true, Cuboid3.Mem, List.mem_cons, List.not_mem_nil, or_false]
+    refine ⟨?_, ?_⟩
+    · rintro v (rfl | rfl | rfl | rfl) <;> split_ifs <;>
+        (refine ⟨⟨⟨?_, ?_⟩, ⟨?_, ?_⟩, ⟨?_, ?_⟩⟩, ?_⟩) <;> simp only [mul_neg, mul_one] <;> linarith
+    · split_ifs <;> simp
+  · simp only [V3.get, OfNat.ofNat_ne_zero, OfNat.ofNat_ne_one, if_false, Cuboid3.Mem, List.mem_cons, List.not_mem_nil, or_false]
+    refine ⟨?_, ?_⟩
+    · rintro v (rfl | rfl | rfl | rfl) <;> split_ifs <;>
+        (refine ⟨⟨⟨?_, ?_⟩, ⟨?_, ?_⟩, ⟨?_, ?_⟩⟩, ?_⟩) <;> simp only [mul_neg, mul_one] <;> linarith
+    · split_ifs <;> simp
+
+private theorem ite_neg_one_lt (d : K) : ((if d < 0 then (-1:K) else 1) < 0) ↔ d < 0 := by
+  split_ifs with h <;> simp [h]
+
+/-- sign pattern of a 3-D vertex, as documented in `cuboid.rs`: "a + sign means the corresponding bit is 0 while a
+- sign means the corresponding bit is 1; the vertex [2.0, -1.0, -3.0] has the id 0b011". -/
+def pat3 (v : V3 K) : Nat := (if v.x < 0 then 4 else 0) + (if v.y < 0 then 2 else 0) + (if v.z < 0 then 1 else 0)
+
+/-- **C10 (cuboid `support_face` feature ids, 3-D; corrected behaviour, see `fixes/C10-cuboid3-face-ids.diff`)**:
+for every cuboid with positive half-extents and every direction
+(1) each vertex id is twice the sign pattern of *its own* vertex — hence a vertex has the same id whichever face
+    returns it, and distinct vertices have distinct ids;
+(2) each edge id is `0b11000000 | (hi << 3) | lo` of the sign patterns of its two end vertices (edge `k` joins
+    vertices `k` and `k+1 mod 4`);
+(3) the face id is `10 + axis` for a face with outward normal `+axis` and `13 + axis` for `-axis`.
+On the pinned tree (1) and (3) are false (`sign_index` is inverted): the correspondence check reports it. -/
+theorem cuboid_face_ids3 (he dir : V3 K) (hx : 0 < he.x) (hy : 0 < he.y) (hz : 0 < he.z) :
+    letI := fieldNum K sq
+    (cuboidSupportFace3 he dir).vids = (cuboidSupportFace3 he dir).verts.map (fun v => 2 * pat3 v) ∧
+    (cuboidSupportFace3 he dir).eids =
+      List.zipWith (fun a b => 192 + 8 * max (a / 2) (b / 2) + min (a / 2) (b / 2))
+        (cuboidSupportFace3 he dir).vids ((cuboidSupportFace3 he dir).vids.rotateLeft 1) ∧
+    (cuboidSupportFace3 he dir).fid = 10 + iamax3 dir + (if dir.get (iamax3 dir) < 0 then 3 else 0) := by
+  obtain ⟨hi, -⟩ := iamax3_spec sq dir
+  have nx : ¬ he.x < 0 := not_lt.2 hx.le
+  have ny : ¬ he.y < 0 := not_lt.2 hy.le
+  have nz : ¬ he.z < 0 := not_lt.2 hz.le
+  have px : -he.x < 0 := neg_lt_zero.2 hx
+  have py : -he.y < 0 := neg_lt_zero.2 hy
+  have pz : -he.z < 0 := neg_lt_zero.2 hz
+  unfold cuboidSupportFace3
+  simp only [copysign_field, abs_one, ite_neg_one_lt, decide_eq_true_eq]
+  generalize @iamax3 K (fieldNum K sq) dir = i at hi ⊢
+  have hc : i = 0 ∨ i = 1 ∨ i = 2 := by omega
+  rcases hc with rfl | rfl | rfl
+  · simp only [V3.get, if_true]
+    split_ifs with c <;>
+      simp [pat3, c, nx, ny, nz, px, py, pz, List.rotateLeft]
+  · simp only [V3.get, one_ne_zero, if_false, if_true]
+    split_ifs with c <;>
+      simp [pat3, c, nx, ny, nz, px, py, pz, List.rotateLeft]
+  · simp only [V3.get, OfNat.ofNat_ne_zero, OfNat.ofNat_ne_one, if_false]
+    split_ifs with c <;>
+      simp [pat3, c, nx, ny, nz, px, py, pz, List.rotateLeft]
+
+example : (0:ℚ) < (⟨1, 2, 3⟩ : V3 ℚ).x ∧ (0:ℚ) < (⟨1, 2, 3⟩ : V3 ℚ).y ∧ (0:ℚ) < (⟨1, 2, 3⟩ : V3 ℚ).z := by norm_num
+
+private theorem signNeg_field (x : K) : letI := fieldNum K sq; signNeg x = decide (x < 0) := by
+  unfold signNeg
+  congr 1
+  apply propext
+  constructor
+  · rintro (h | h)
+    · exact h
+    · exact one_div_neg.mp h
+  · exact Or.inl
+
+/-- sign pattern of a 2-D vertex: bit 0 = `x < 0`, bit 1 = `y < 0` -/
+def pat2 (v : V2 K) : Nat := (if v.x < 0 then 1 else 0) + (if v.y < 0 then 2 else 0)
+
+/-- **C10 (cuboid `support_face`, 2-D)**: with `i = iamin(dir)` and `j` the other axis (the face normal):
+(1) `|dir_i| ≤ |dir_j|`;  (2) both returned vertices belong to the cuboid and lie on the supporting line
+`p_j = ±he_j` (sign of `dir_j`);  (3) `Cuboid::local_support_point(dir)` is one of the two vertices. -/
+theorem cuboid_face_vertices2 (he dir : V2 K) (hx : 0 ≤ he.x) (hy : 0 ≤ he.y) :
+    letI := fieldNum K sq
+    |dir.get (iamin2 dir)| ≤ |dir.get ((iamin2 dir + 1) % 2)| ∧
+    (∀ v ∈ (cuboidSupportFace2 he dir).verts, (Cuboid2.mk he).Mem v ∧
+      v.get ((iamin2 dir + 1) % 2) = if dir.get ((iamin2 dir + 1) % 2) < 0 then -(he.get ((iamin2 dir + 1) % 2))
+        else he.get ((iamin2 dir + 1) % 2)) ∧
+    cuboidLocal2 he dir ∈ (cuboidSupportFace2 he dir).verts := by
+  have key : (@iamin2 K (fieldNum K sq) dir = 1 ∧ |dir.y| < |dir.x|) ∨ (@iamin2 K (fieldNum K sq) dir = 0 ∧ |dir.x| ≤ |dir.y|) := by
+    unfold iamin2; simp only [fieldNum_nabs]
+    split_ifs with c
+    · exact Or.inl ⟨rfl, c⟩
+    · exact Or.inr ⟨rfl, not_lt.1 c⟩
+  unfold cuboidSupportFace2 cuboidLocal2
+  simp only [copysign_field, abs_of_nonneg hx, abs_of_nonneg hy]
+  generalize @iamin2 K (fieldNum K sq) dir = i at key ⊢
+  rcases key with ⟨rfl, c⟩ | ⟨rfl, c⟩
+  · simp only [V2.get, V2.set, V2.zero, Nat.reduceAdd, Nat.reduceMod, one_ne_zero, if_true, if_false, Cuboid2.Mem,
+      List.mem_cons, List.not_mem_nil, or_false]
+    refine ⟨c.le, ?_, ?_⟩
+    · rintro v (rfl | rfl) <;> split_ifs <;> refine ⟨⟨⟨?_, ?_⟩, ⟨?_, ?_⟩⟩, ?_⟩ <;>
+        simp only [abs_of_nonneg hx, abs_of_nonneg hy] <;> first | linarith | rfl
+    · split_ifs <;> simp [abs_of_nonneg hx, abs_of_nonneg hy]
+  · simp only [V2.get, V2.set, V2.zero, Nat.reduceAdd, Nat.reduceMod, one_ne_zero, if_true, if_false, Cuboid2.Mem,
+      List.mem_cons, List.not_mem_nil, or_false, zero_add]
+    refine ⟨c, ?_, ?_⟩
+    · rintro v (rfl | rfl) <;> split_ifs <;> refine ⟨⟨⟨?_, ?_⟩, ⟨?_, ?_⟩⟩, ?_⟩ <;>
+        simp only [abs_of_nonneg hx, abs_of_nonneg hy] <;> first | linarith | rfl
+    · split_ifs <;> simp [abs_of_nonneg hx, abs_of_nonneg hy]
+
+/-- **C10 (2-D cuboid feature ids; corrected behaviour, see `fixes/C10-cuboid2-vertex-feature-id.diff`)**: for
+positive half-extents the two vertex ids are the sign patterns of the two vertices (`[x<0] + 2·[y<0]`, so they
+differ), and the face id is `(hi << 2) | lo | 0b110000` of them.  On the pinned f64 tree both ids are 0. -/
+theorem cuboid_face_ids2 (he dir : V2 K) (hx : 0 < he.x) (hy : 0 < he.y) :
+    letI := fieldNum K sq
+    (cuboidSupportFace2 he dir).vids = (cuboidSupportFace2 he dir).verts.map pat2 ∧
+    (∃ a b, (cuboidSupportFace2 he dir).vids = [a, b] ∧ a ≠ b ∧
+      (cuboidSupportFace2 he dir).fid = max a b * 4 + min a b + 48) := by
+  have nx : ¬ he.x < 0 := not_lt.2 hx.le
+  have ny : ¬ he.y < 0 := not_lt.2 hy.le
+  have px : -he.x < 0 := neg_lt_zero.2 hx
+  have py : -he.y < 0 := neg_lt_zero.2 hy
+  have key : @iamin2 K (fieldNum K sq) dir = 1 ∨ @iamin2 K (fieldNum K sq) dir = 0 := by
+    unfold iamin2; split_ifs <;> simp
+  unfold cuboidSupportFace2 vertexFeatureId2
+  simp only [copysign_field, signNeg_field, decide_eq_true_eq, abs_of_pos hx, abs_of_pos hy]
+  generalize @iamin2 K (fieldNum K sq) dir = i at key ⊢
+  rcases key with rfl | rfl
+  · simp only [V2.get, V2.set, V2.zero, Nat.reduceAdd, Nat.reduceMod, one_ne_zero, if_true, if_false,
+      abs_of_pos hx, abs_of_pos hy]
+    by_cases c : dir.x < 0 <;> simp [pat2, c, nx, ny, px, py]
+  · simp only [V2.get, V2.set, V2.zero, Nat.reduceAdd, Nat.reduceMod, one_ne_zero, if_true, if_false, zero_add,
+      abs_of_pos hx, abs_of_pos hy]
+    by_cases c : dir.y < 0 <;> simp [pat2, c, nx, ny, px, py]
+
+/-- **C10 (segment / triangle feature maps)**: `PolygonalFeature::from(Segment)`, `from(Triangle)` (=
+`Triangle::support_face` in 3-D) return exactly the shape's own vertices, which are points of the shape. -/
+theorem segment_triangle_features (a b c : V3 K) (a2 b2 : V2 K) :
+    letI := fieldNum K sq
+    ((triangleSupportFace3 a b c).verts = [a, b, c] ∧ ∀ v ∈ (triangleSupportFace3 a b c).verts, (Triangle3.mk a b c).Mem v) ∧
+    ((segmentFeature3 a b).verts = [a, b] ∧ ∀ v ∈ (segmentFeature3 a b).verts, (Segment3.mk a b).Mem v) ∧
+    ((segmentFeature2 a2 b2).verts = [a2, b2] ∧ ∀ v ∈ (segmentFeature2 a2 b2).verts, (Segment2.mk a2 b2).Mem v) := by
+  obtain ⟨ma, mb, mc⟩ := tri3_mem sq a b c
+  refine ⟨⟨rfl, ?_⟩, ⟨rfl, ?_⟩, ⟨rfl, ?_⟩⟩
+  · intro v hv
+    simp only [triangleSupportFace3, List.mem_cons, List.not_mem_nil, or_false] at hv
+    rcases hv with h | h | h <;> rw [h] <;> assumption
+  · intro v hv
+    simp only [segmentFeature3, List.mem_cons, List.not_mem_nil, or_false] at hv
+    rcases hv with h | h <;> rw [h]
+    · exact seg3_mem_a sq a b
+    · exact seg3_mem_b sq a b
+  · intro v hv
+    simp only [segmentFeature2, List.mem_cons, List.not_mem_nil, or_false] at hv
+    rcases hv with h | h <;> rw [h]
+    · exact seg2_mem_a sq a2 b2
+    · exact seg2_mem_b sq a2 b2
+
+private theorem imin3_spec (v : V3 K) :
+    letI := fieldNum K sq
+    imin3 v < 3 ∧ v.get (imin3 v) ≤ v.x ∧ v.get (imin3 v) ≤ v.y ∧ v.get (imin3 v) ≤ v.z := by
+  simp only [imin3, V3.get]
+  split_ifs <;> simp_all <;> (try constructor) <;> linarith
+
+/-- **C10 (`Triangle::local_support_edge_segment`)**: the returned edge is an edge of the triangle (both end
+points are triangle vertices, hence points of the triangle) and one of its end points is a support point of
+the triangle for `dir` — the edge opposite to the *worst* vertex always contains a best one. -/
+theorem triangle_edge_support (a b c dir : V3 K) :
+    letI := fieldNum K sq
+    ((Triangle3.mk a b c).Mem (triangleSupportEdge3 a b c dir).1 ∧ (Triangle3.mk a b c).Mem (triangleSupportEdge3 a b c dir).2) ∧
+    (IsSupport3 sq (Triangle3.mk a b c).Mem dir (triangleSupportEdge3 a b c dir).1 ∨
+     IsSupport3 sq (Triangle3.mk a b c).Mem dir (triangleSupportEdge3 a b c dir).2) := by
+  obtain ⟨ma, mb, mc⟩ := tri3_mem sq a b c
+  obtain ⟨hi, h1, h2, h3⟩ := imin3_spec sq
+    (⟨@V3.dot K (fieldNum K sq) dir a, @V3.dot K (fieldNum K sq) dir b, @V3.dot K (fieldNum K sq) dir c⟩ : V3 K)
+  unfold triangleSupportEdge3 IsSupport3
+  simp only []
+  generalize @imin3 K (fieldNum K sq) ⟨@V3.dot K (fieldNum K sq) dir a, @V3.dot K (fieldNum K sq) dir b,
+    @V3.dot K (fieldNum K sq) dir c⟩ = i at hi h1 h2 h3 ⊢
+  have hc : i = 0 ∨ i = 1 ∨ i = 2 := by omega
+  rcases hc with rfl | rfl | rfl
+  · simp only [V3.get, if_true] at h1 h2 h3 ⊢
+    refine ⟨⟨mb, mc⟩, ?_⟩
+    rcases le_total (@V3.dot K (fieldNum K sq) dir b) (@V3.dot K (fieldNum K sq) dir c) with h | h
+    · exact Or.inr ⟨mc, fun q hq => tri3_max sq a b c dir q _ hq h3 h (le_refl _)⟩
+    · exact Or.inl ⟨mb, fun q hq => tri3_max sq a b c dir q _ hq h2 (le_refl _) h⟩
+  · simp only [V3.get, one_ne_zero, if_false, if_true] at h1 h2 h3 ⊢
+    refine ⟨⟨mc, ma⟩, ?_⟩
+    rcases le_total (@V3.dot K (fieldNum K sq) dir a) (@V3.dot K (fieldNum K sq) dir c) with h | h
+    · exact Or.inl ⟨mc, fun q hq => tri3_max sq a b c dir q _ hq h h3 (le_refl _)⟩
+    · exact Or.inr ⟨ma, fun q hq => tri3_max sq a b c dir q _ hq (le_refl _) h1 h⟩
+  · simp only [V3.get, OfNat.ofNat_ne_zero, OfNat.ofNat_ne_one, if_false] at h1 h2 h3 ⊢
+    refine ⟨⟨ma, mb⟩, ?_⟩
+    rcases le_total (@V3.dot K (fieldNum K sq) dir a) (@V3.dot K (fieldNum K sq) dir b) with h | h
+    · exact Or.inr ⟨mb, fun q hq => tri3_max sq a b c dir q _ hq h (le_refl _) h2⟩
+    · exact Or.inl ⟨ma, fun q hq => tri3_max sq a b c dir q _ hq (le_refl _) h h1⟩
+
+/-! ### cylinder / cone feature maps: generator segments and inscribed cap squares -/
+
+private theorem eps_pos : letI := fieldNum K sq; (0:K) < eps := by
+  simp only [eps, fieldNum_lit]
+  have : (0:ℚ) < mkRat 1 4503599627370496 := by rw [Rat.mkRat_eq_div]; norm_num
+  exact_mod_cast this
+
+/-- `dir2` (the normalised `(dir.x, dir.z)`, or the fall-back `(1,0)`) is a unit vector -/
+private theorem capDir_unit (hs : LawfulSqrt sq) (dir : V3 K) :
+    letI := fieldNum K sq
+    (capDir dir).x * (capDir dir).x + (capDir dir).y * (capDir dir).y = 1 := by
+  have h0 : 0 ≤ dir.x * dir.x + dir.z * dir.z := by nlinarith [mul_self_nonneg dir.x, mul_self_nonneg dir.z]
+  have hnn := hs.sq_mul _ h0
+  by_cases c : sq (dir.x * dir.x + dir.z * dir.z) ≤ @eps K (fieldNum K sq)
+  · simp [capDir, tryNormalize2, V2.norm, V2.normSq, V2.dot, fieldNum_sqrt, c]
+  · have hn : 0 < sq (dir.x * dir.x + dir.z * dir.z) := lt_trans (eps_pos sq) (not_le.1 c)
+    have hne := ne_of_gt hn
+    simp only [capDir, tryNormalize2, V2.norm, V2.normSq, V2.dot, fieldNum_sqrt, c, if_false, Option.getD_some, V2.sdiv]
+    generalize sq (dir.x * dir.x + dir.z * dir.z) = n at hnn hne
+    have : dir.x / n * (dir.x / n) + dir.z / n * (dir.z / n) = (dir.x * dir.x + dir.z * dir.z) / (n * n) := by
+      field_simp
+    rw [this, ← hnn, div_self (mul_ne_zero hne hne)]
+
+/-- **C10 (cylinder `local_support_feature`)**: for `half_height ≥ 0`, `radius ≥ 0` and every direction the
+returned feature is, for some point `(p,q)` of the circle `p²+q² = r²`, either the generator segment
+`(p,-hh,q)–(p,hh,q)` of the curved part, or the square `(p,y,q),(-q,y,p),(-p,y,-q),(q,y,-p)` inscribed in the cap
+circle at `y = ±hh` on the side of `dir.y`; in both cases every vertex is a point of the cylinder (on its rim). -/
+theorem cylinder_feature_vertices (hs : LawfulSqrt sq) (hh r : K) (dir : V3 K) (hh0 : 0 ≤ hh) :
+    letI := fieldNum K sq
+    ∃ p q : K, p * p + q * q = r * r ∧
+      ((cylinderFeature hh r dir).verts = [⟨p, -hh, q⟩, ⟨p, hh, q⟩] ∨
+       (cylinderFeature hh r dir).verts =
+         [⟨p, if dir.y < 0 then -hh else hh, q⟩, ⟨-q, if dir.y < 0 then -hh else hh, p⟩,
+          ⟨-p, if dir.y < 0 then -hh else hh, -q⟩, ⟨q, if dir.y < 0 then -hh else hh, -p⟩]) ∧
+      ∀ v ∈ (cylinderFeature hh r dir).verts, (Cylinder.mk hh r).Mem v := by
+  have hu := capDir_unit sq hs dir
+  refine ⟨(@capDir K (fieldNum K sq) dir).x * r, (@capDir K (fieldNum K sq) dir).y * r, by linear_combination (r * r) * hu, ?_⟩
+  have hmem : ∀ y : K, (y = hh ∨ y = -hh) → ∀ p q : K, p * p + q * q = r * r →
+      @Cylinder.Mem K (fieldNum K sq) (Cylinder.mk hh r) ⟨p, y, q⟩ := by
+    intro y hy p q hpq
+    refine ⟨?_, le_of_eq hpq⟩
+    rcases hy with rfl | rfl <;> constructor <;> linarith
+  have hpq := (by linear_combination (r * r) * hu :
+    ((@capDir K (fieldNum K sq) dir).x * r) * ((@capDir K (fieldNum K sq) dir).x * r) +
+    ((@capDir K (fieldNum K sq) dir).y * r) * ((@capDir K (fieldNum K sq) dir).y * r) = r * r)
+  unfold cylinderFeature
+  simp only [copysign_field, abs_of_nonneg hh0]
+  by_cases c1 : @nabs K (fieldNum K sq) dir.y < @lit K (fieldNum K sq) 1 2
+  · simp only [c1, if_true]
+    refine ⟨by first | exact Or.inl rfl | exact Or.inl trivial, ?_⟩
+    intro v hv
+    simp only [List.mem_cons, List.not_mem_nil, or_false] at hv
+    rcases hv with h | h <;> rw [h]
+    · exact hmem _ (Or.inr rfl) _ _ hpq
+    · exact hmem _ (Or.inl rfl) _ _ hpq
+  · by_cases c2 : dir.y < 0
+    · simp only [c1, c2, if_false, if_true]
+      refine ⟨Or.inr (by simp only [neg_mul]), ?_⟩
+      intro v hv
+      simp only [List.mem_cons, List.not_mem_nil, or_false] at hv
+      rcases hv with h | h | h | h <;> rw [h] <;> apply hmem _ (Or.inr rfl) <;> linear_combination hpq
+    · simp only [c1, c2, if_false]
+      refine ⟨Or.inr (by simp only [neg_mul]), ?_⟩
+      intro v hv
+      simp only [List.mem_cons, List.not_mem_nil, or_false] at hv
+      rcases hv with h | h | h | h <;> rw [h] <;> apply hmem _ (Or.inl rfl) <;> linear_combination hpq
+
+/-- **C10 (cone `local_support_feature`)**: for `half_height > 0` and every direction the returned feature is,
+for some `(p,q)` with `p²+q² = r²`, either the generator `(p,-hh,q)–apex` (when `dir.y > 0`) or the square
+`(p,-hh,q),(-q,-hh,p),(-p,-hh,-q),(q,-hh,-p)` inscribed in the base circle; every vertex is a point of the cone. -/
+theorem cone_feature_vertices (hs : LawfulSqrt sq) (hh r : K) (dir : V3 K) (hh0 : 0 < hh) :
+    letI := fieldNum K sq
+    ∃ p q : K, p * p + q * q = r * r ∧
+      ((coneFeature hh r dir).verts = [⟨p, -hh, q⟩, ⟨0, hh, 0⟩] ∨
+       (coneFeature hh r dir).verts = [⟨p, -hh, q⟩, ⟨-q, -hh, p⟩, ⟨-p, -hh, -q⟩, ⟨q, -hh, -p⟩]) ∧
+      ∀ v ∈ (coneFeature hh r dir).verts, (Cone.mk hh r).Mem v := by
+  have hu := capDir_unit sq hs dir
+  have hpq := (by linear_combination (r * r) * hu :
+    ((@capDir K (fieldNum K sq) dir).x * r) * ((@capDir K (fieldNum K sq) dir).x * r) +
+    ((@capDir K (fieldNum K sq) dir).y * r) * ((@capDir K (fieldNum K sq) dir).y * r) = r * r)
+  refine ⟨(@capDir K (fieldNum K sq) dir).x * r, (@capDir K (fieldNum K sq) dir).y * r, hpq, ?_⟩
+  have hrim : ∀ p q : K, p * p + q * q = r * r → @Cone.Mem K (fieldNum K sq) (Cone.mk hh r) ⟨p, -hh, q⟩ := by
+    intro p q h
+    simp only [Cone.Mem, fieldNum_two]
+    refine ⟨⟨le_refl _, by linarith⟩, ?_⟩
+    rw [h]; apply le_of_eq; ring
+  have hapex : @Cone.Mem K (fieldNum K sq) (Cone.mk hh r) ⟨0, hh, 0⟩ := by
+    simp only [Cone.Mem, fieldNum_two]
+    refine ⟨⟨by linarith, le_refl _⟩, ?_⟩
+    apply le_of_eq; ring
+  unfold coneFeature
+  by_cases c : 0 < dir.y
+  · simp only [c, if_true]
+    refine ⟨by first | exact Or.inl rfl | exact Or.inl trivial, ?_⟩
+    intro v hv
+    simp only [List.mem_cons, List.not_mem_nil, or_false] at hv
+    rcases hv with h | h <;> rw [h]
+    · exact hrim _ _ hpq
+    · exact hapex
+  · simp only [c, if_false]
+    refine ⟨Or.inr (by simp only [neg_mul]), ?_⟩
+    intro v hv
+    simp only [List.mem_cons, List.not_mem_nil, or_false] at hv
+    rcases hv with h | h | h | h <;> rw [h] <;> apply hrim <;> linear_combination hpq
+
 end C10
